@@ -645,7 +645,7 @@ Proof.
 Qed.
 
 (* the premise cannot hold for mbc = 0 (the decoder panics), so the two theorems are vacuous there *)
-Example lengths_premise_mbc0 : dbp_read_lengths (dbp_encode 32 128 0 [5] ++ []) = Panic.
+Example lengths_premise_mbc0 : dbp_read_lengths (dbp_encode 32 128 0 [5] ++ []) = Err.
 Proof. vm_compute. reflexivity. Qed.
 
 Print Assumptions plain_num_roundtrip.
